@@ -8,9 +8,12 @@
               loaded as persisted; on a new store nothing else is loaded
    deleted  : a condition whose Delete/DeleteUpstream was acknowledged and that was not saved
               again is neither in the API nor in any store afterwards
+   noregress: per condition, the API holds the latest version whose write-through Save was
+              acknowledged, or a version somebody tried to save after that — never an older one
+              (until a delete of that condition is attempted)
    filter   : Save of a condition of another shard is refused and changes nothing; a store only
               ever holds conditions of its own shard (cited by C13)
-   stop / deleted are read for histories in which a condition name belongs to one upstream
+   stop / deleted / noregress are read for histories in which a condition name belongs to one upstream
    (hist_wf) — the limiter derives the name from the upstream. *)
 From KG Require Import Prelude C13_Model C19_Model.
 Open Scope Z_scope.
@@ -56,6 +59,7 @@ Definition hist_wf (init : apist) (ops : list op) : bool :=
 Record ctx := mkCtx {
   calive : bool; csh : Z; cw : bool; cstopped : bool; cfresh : bool;
   cdel : list string;                  (* acknowledged deletions not followed by a save attempt *)
+  cack : list (string * (body * list body));   (* name -> latest acknowledged write-through version, later attempts *)
   papi : apist; ploc : localst;
 }.
 
@@ -143,6 +147,61 @@ Definition deleted_ok (d : list string) (b : obs) : bool :=
   (forallb (fun x => match alookup String.eqb x (oapi b) with Some _ => false | None => true end) d
    && forallb (fun p : key * body => negb (str_mem (snd (fst p)) d)) (oloc b))%bool.
 
+(* ---- latest acknowledged version per condition ---- *)
+Definition note_save (w : bool) (cd : cond) (r : option res) (l : list (string * (body * list body)))
+  : list (string * (body * list body)) :=
+  match r with
+  | None => l                                      (* never issued *)
+  | Some RDead => l
+  | Some q =>
+      if (w && res_eqb q ROk)%bool then aset String.eqb (fst cd) (snd cd, []) l
+      else match alookup String.eqb (fst cd) l with
+           | Some (a, ls) => aset String.eqb (fst cd) (a, snd cd :: ls) l
+           | None => l
+           end
+  end.
+Definition note_del (f : fop) (r : option res) (l : list (string * (body * list body)))
+  : list (string * (body * list body)) :=
+  match r with
+  | None => l
+  | Some RDead => l
+  | Some _ => match f with
+              | FDelete _ nm => adel String.eqb nm l
+              | FDeleteUp _ ord => filter (fun p : string * (body * list body) => negb (str_mem (fst p) ord)) l
+              | FSave _ => l
+              end
+  end.
+Definition note_fop (w : bool) (f : fop) (r : option res) l :=
+  match f with FSave cd => note_save w cd r l | _ => note_del f r l end.
+Fixpoint zip_fops (fs : list fop) (rs : list (option res)) : list (fop * option res) :=
+  match fs, rs with
+  | f :: fr, r :: rr => (f, r) :: zip_fops fr rr
+  | _, _ => []
+  end.
+Fixpoint zip_inter (inter : list (key * list fop)) (rs : list (list (option res))) : list (fop * option res) :=
+  match inter, rs with
+  | e :: er, r :: rr => zip_fops (snd e) r ++ zip_inter er rr
+  | _, _ => []
+  end.
+
+Definition next_ack (c : ctx) (o : op) (b : obs) : list (string * (body * list body)) :=
+  match o with
+  | OFg f _ => if calive c then note_fop (cw c) f (Some (ores b)) (cack c) else cack c
+  | OFlush _ inter _ =>
+      let evs := zip_inter inter (oipos b) in
+      let saves := filter (fun e : fop * option res => negb (is_del (fst e))) evs in
+      let dels := filter (fun e : fop * option res => is_del (fst e)) evs in
+      fold_left (fun l e => note_fop (cw c) (fst e) (snd e) l) (saves ++ dels) (cack c)
+  | _ => cack c
+  end.
+
+Definition noregress_ok (l : list (string * (body * list body))) (b : obs) : bool :=
+  forallb (fun p : string * (body * list body) =>
+             match alookup String.eqb (fst p) (oapi b) with
+             | Some v => (content_eqb v (fst (snd p)) || existsb (content_eqb v) (snd (snd p)))%bool
+             | None => false
+             end) l.
+
 Definition filter_ok (n : Z) (c : ctx) (sh_after : Z) (o : op) (b : obs) : bool :=
   (match o with
    | OFg (FSave cd) _ =>
@@ -157,34 +216,35 @@ Definition filter_ok (n : Z) (c : ctx) (sh_after : Z) (o : op) (b : obs) : bool 
 Definition next_ctx (c : ctx) (o : op) (b : obs) : ctx :=
   let d := next_del c o b in
   match o with
-  | ORestart sh w => mkCtx true sh w false true d (oapi b) (oloc b)
+  | ORestart sh w => mkCtx true sh w false true d (next_ack c o b) (oapi b) (oloc b)
   | _ =>
       let alive := (calive c && negb (res_eqb (ores b) RCrash))%bool in
       let stp := match o with
                  | OStop _ _ => (cstopped c || (calive c && res_eqb (ores b) ROk))%bool
                  | _ => cstopped c
                  end in
-      mkCtx alive (csh c) (cw c) stp false d (oapi b) (oloc b)
+      mkCtx alive (csh c) (cw c) stp false d (next_ack c o b) (oapi b) (oloc b)
   end.
 
-(* clause layout: ack, stop, load, deleted, filter *)
+(* clause layout: ack, stop, load, deleted, filter, noregress *)
 Definition step_ok (n : Z) (wf : bool) (c : ctx) (o : op) (b : obs) : list bool :=
   let c' := next_ctx c o b in
   [ ack_ok c o b;
     (negb wf || stop_ok c o b)%bool;
     load_ok n c o b;
     (negb wf || deleted_ok (cdel c') b)%bool;
-    filter_ok n c (csh c') o b ].
+    filter_ok n c (csh c') o b;
+    (negb wf || noregress_ok (cack c') b)%bool ].
 
 Definition and_lists (a b : list bool) : list bool := map (fun p => (fst p && snd p)%bool) (combine a b).
 
 Fixpoint hist_go (n : Z) (wf : bool) (c : ctx) (l : list (op * obs)) : list bool :=
   match l with
-  | [] => [true; true; true; true; true]
+  | [] => [true; true; true; true; true; true]
   | (o, b) :: r => and_lists (step_ok n wf c o b) (hist_go n wf (next_ctx c o b) r)
   end.
 
-Definition ctx0 (init : apist) : ctx := mkCtx false 0 true false false [] init [].
+Definition ctx0 (init : apist) : ctx := mkCtx false 0 true false false [] [] init [].
 
 Definition hist_ok (n : Z) (init : apist) (l : list (op * obs)) : list bool :=
   hist_go n (hist_wf init (map fst l)) (ctx0 init) l.
